@@ -7,16 +7,16 @@ EXTENDS MC_Forest, Json
 VARIABLE hist
 GInit == Init /\ hist = <<>>
 View == <<kids, par>>
-Succ(c, o) == [kids EXCEPT ![c] = [key \in DOMAIN kids[c] \cup {Obj[o].id} |->
-                                     IF key = Obj[o].id THEN o ELSE kids[c][key]]]
-Acts == {[c |-> c, o |-> o, out |-> IF AddOk(c, o) THEN "ok" ELSE "ValueError",
-          newc |-> IF AddOk(c, o) THEN Succ(c, o)[c] ELSE kids[c]]
-         : <<c, o>> \in {p \in Cont \X Objs : InScope(p[1], p[2]) /\ Attachable(p[1])}}
+Succ(c, o, kf) == [kids EXCEPT ![c] = [key \in DOMAIN kids[c] \cup {KeyOf(o, kf)} |->
+                                         IF key = KeyOf(o, kf) THEN o ELSE kids[c][key]]]
+Acts == {[c |-> p[1], o |-> p[2], kf |-> p[3], out |-> IF AddOkK(p[1], p[2], p[3]) THEN "ok" ELSE "ValueError",
+          newc |-> IF AddOkK(p[1], p[2], p[3]) THEN Succ(p[1], p[2], p[3])[p[1]] ELSE kids[p[1]]]
+         : p \in {q \in Cont \X Objs \X KeyForms : q[3] \in KeyFormsAt(q[1]) /\ InScope(q[1], q[2]) /\ Attachable(q[1])}}
 PoolJson == [o \in Objs |-> [id |-> Obj[o].id, uid |-> Obj[o].uid, arches |-> Obj[o].arches, type |-> Obj[o].type]]
 Emit == PrintT("@@" \o ToJson([hist |-> hist, kids |-> kids, par |-> par, acts |-> Acts, pool |-> PoolJson,
                                 forest |-> InForest]))
 GNext == /\ Emit                       \* evaluated once per expanded (= distinct) state
-         /\ \E c \in Cont, o \in Objs :
-              /\ InScope(c, o) /\ Attachable(c) /\ Add(c, o)
-              /\ hist' = Append(hist, [c |-> c, o |-> o, out |-> out'])
+         /\ \E c \in Cont, o \in Objs : \E kf \in KeyFormsAt(c) :
+              /\ InScope(c, o) /\ Attachable(c) /\ AddK(c, o, kf)
+              /\ hist' = Append(hist, [c |-> c, o |-> o, kf |-> kf, out |-> out'])
 =============================================================================
